@@ -33,9 +33,9 @@ RULE = ('seeded small worlds (1-4 segments, <=3 channels, optional index file, D
         '(segment shapes, index, scenario set); non-trivial = at least one injected fault made an API call raise '
         'while a library-owned handle had been opened')
 EXPECTED_PROBES = ['eio:read-raised', 'corrupt:raised', 'corrupt:survived', 'foreign-index', 'close-with-suspended-generator',
-                   'read-after-close:raised', 'read-after-close:cache-hit', 'writer-block-raises', 'realfs-fd-check',
+                   'read-after-close:raised', 'read-after-close:cache-hit', 'writer-block-raises', 'writer-block-enospc', 'realfs-fd-check',
                    'index-present']
-ASSUMPTIONS = ['failures of open()/seek()/tell() and of writes (ENOSPC) are outside what the statement lists and are not injected',
+ASSUMPTIONS = ['failures of open()/seek()/tell() are outside what the statement lists and are not injected; a full disk (ENOSPC at every write event in turn) is injected for the TdmsWriter with-block only',
                'descriptors left open when TdmsFile.open(...) itself raises are not judged (the statement does not list it)']
 
 
@@ -484,9 +484,18 @@ def writer_block(case, res):
     out = []
     prog = case['program']
     for sink in ('simpath', 'simstream'):
-        for boom in (False, True):
+        nwrites = 0
+        # boom: None = normal exit, 'exc' = an exception raised inside the with-block, int k = the k-th write fails
+        # with ENOSPC (full disk) and the error leaves the with-block
+        plans = [None, 'exc']
+        pi = 0
+        while pi < len(plans):
+            boom = plans[pi]
+            pi += 1
             res.sub_evals += 1
             with store(record=False) as st:
+                if isinstance(boom, int):
+                    st.fs.fail_writes = {boom}
                 nptdms = lib.nptdms
                 if sink == 'simpath':
                     target, idx = 'o.tdms', True
@@ -498,14 +507,24 @@ def writer_block(case, res):
                         for call in prog['sessions'][0]:
                             try:
                                 wr.write_segment(wgen.make_objects(nptdms, call))
+                            except OSError:
+                                raise
                             except Exception:
                                 pass
-                        if boom:
+                        if boom == 'exc':
                             res.probe('writer-block-raises')
                             raise KeyError('exception inside the with-block')
                 except KeyError:
                     raised = 'KeyError'
-                vs = judge(st, res, 'TdmsWriter with-block (%s)%s' % (sink, ' left by an exception' if boom else ''))
+                except OSError:
+                    raised = 'OSError'
+                    res.probe('writer-block-enospc')
+                    res.fault('enospc')
+                if boom is None:
+                    nwrites = st.fs.write_events
+                    plans += list(range(nwrites))
+                vs = judge(st, res, 'TdmsWriter with-block (%s)%s' % (sink, '' if boom is None else (
+                    ' left by an exception' if boom == 'exc' else ' with ENOSPC at write %d' % boom)))
                 for v in vs:
                     v.sig.update(phase='writer', kind=sink)
                 out += vs
